@@ -78,6 +78,7 @@ typedef struct {
   int        ever_connected;
   int        sent_any;
   int        probe;         /* opened outside a DNS connection (sortaddrinfo probe socket) */
+  uint8_t    local[16];     /* local address, bound when the socket is created */
 } vsock_t;
 
 static vsock_t vsock[SIM_MAXFD];
@@ -452,6 +453,7 @@ static ares_socket_t vs_socket(int domain, int type, int protocol, void *ud)
   vsock[fd].state      = VS_OPEN;
   vsock[fd].is_tcp     = (type == SOCK_STREAM);
   vsock[fd].family     = domain;
+  memcpy(vsock[fd].local, domain == AF_INET ? sim_cfg.local4 : sim_cfg.local6, domain == AF_INET ? 4 : 16);
   vsock[fd].srv        = -1;
   vsock[fd].opened_seq = sim_callcount_all;
   sim_open_count++;
@@ -654,7 +656,7 @@ static int vs_getsockname(ares_socket_t s, struct sockaddr *sa, ares_socklen_t *
     errno = ENOTCONN;
     return -1;
   }
-  sim_addr_to_sockaddr(vsock[s].family, vsock[s].family == AF_INET ? sim_cfg.local4 : sim_cfg.local6, 40000, &ss, &l);
+  sim_addr_to_sockaddr(vsock[s].family, vsock[s].local, 40000, &ss, &l);
   if (*len < l) {
     errno = EINVAL;
     return -1;
